@@ -32,6 +32,20 @@ impl VisitableMut for Generics {
         visit.visit_generics_mut(self);
     }
 }
+/// `dyn Tr +` is `dyn Tr` (a trailing `+` is legal in a trait object type).  The generated code names field types and
+/// self types in places where the trailing `+` is not (`<dyn Tr + as Trait>::f`), so it is built from a copy without it.
+pub struct DropTrailingPlus;
+impl VisitMut for DropTrailingPlus {
+    fn visit_type_trait_object_mut(&mut self, i: &mut syn::TypeTraitObject) {
+        if i.bounds.trailing_punct() {
+            if let Some(last) = i.bounds.pop() {
+                i.bounds.push_value(last.into_value());
+            }
+        }
+        syn::visit_mut::visit_type_trait_object_mut(self, i);
+    }
+}
+
 pub fn expand_self<T: VisitableMut + Clone>(input: &T, to: &Type) -> T {
     struct ExpandSelfVisitor<'a> {
         to: &'a Type,
